@@ -207,7 +207,13 @@ func (c13) Exec(sc *sim.Scenario, env *sim.Env) *sim.Violation {
 	sim.Activate(env)
 	defer sim.Deactivate()
 	st := env.Stats
-	env.SetWatchdog(uint64(len(sc.Ops)+4) * 5000000)
+	wd := uint64(len(sc.Ops)+4) * 5000000
+	for _, op := range sc.Ops {
+		if op.K == "churn" {
+			wd += uint64(op.Arg(1)) * 8000 // an Attach may legitimately cost a table scan now and then
+		}
+	}
+	env.SetWatchdog(wd)
 	ndev := int(sc.C("ndev"))
 	if ndev < 1 {
 		ndev = 1
